@@ -124,6 +124,17 @@ class G:
         fmt = r.choice(["csr", "csc", "coo", "bsr", "dia"] if supported else ["dok", "lil"])
         kind = r.choice(["matrix", "array"])
         ctor = getattr(sp, f"{fmt}_{kind}", None) or getattr(sp, f"{fmt}_matrix")
+        if supported and r.random() < 0.3:
+            # non-canonical storage: unsorted column indices (csr/csc), duplicate entries (coo)
+            if fmt == "csr":
+                m = sp.csr_matrix((np.array([1.0, 2.0, 3.0, 4.0]), np.array([2, 0, 1, 0]), np.array([0, 3, 4])), shape=(2, 3))
+                return m, True
+            if fmt == "csc":
+                m = sp.csc_matrix((np.array([1.0, 2.0, 3.0]), np.array([1, 0, 1]), np.array([0, 2, 3, 3])), shape=(2, 3))
+                return m, True
+            if fmt == "coo":
+                m = sp.coo_matrix((np.array([1.0, 2.0, 3.0]), (np.array([0, 0, 1]), np.array([1, 1, 0]))), shape=(2, 2))
+                return m, True
         return ctor(dense), supported
 
     def masked(self):
